@@ -235,33 +235,26 @@ structure Plan where
 def intSliceDiff (x y : List Int) : List Int :=
   x.filter (fun a => !y.contains a) ++ y.filter (fun a => !x.contains a)
 
-def isCustomAt (up : List Channel) (c : Int) : Outcome Bool := do let ch ← idxInt up c; ok ch.custom
+/-- `b.uplinkChannels[c].custom`. In the Go code this index expression is only ever evaluated for an index taken from the
+band's own enabled-channel list (or guarded by a short-circuit `channelIsActive(dev, c) ||`), so it cannot go out of range;
+the model therefore uses a total lookup. -/
+def customAt (up : List Channel) (c : Int) : Bool := (up.getD c.toNat default).custom
 
-/-- the `filteredDiff` loop: may index `uplinkChannels` with a device channel that does not exist -/
-def filterDiff (up : List Channel) (dev : List Int) : List Int → Outcome (List Int)
-  | [] => ok []
-  | c :: cs =>
-    if dev.contains c then do let r ← filterDiff up dev cs; ok (c :: r)
-    else do
-      let cu ← isCustomAt up c
-      let r ← filterDiff up dev cs
-      ok (if !cu then c :: r else r)
+/-- the `filteredDiff` loop -/
+def filterDiff (up : List Channel) (dev : List Int) (diff : List Int) : List Int :=
+  diff.filter fun c => dev.contains c || !customAt up c
 
 /-- mask of block `k`: enabled channels of the block that are standard or already active on the device -/
-def blockMask (up : List Channel) (dev enabled : List Int) (k : Int) : Outcome (BitVec 16) :=
-  enabled.foldlM (fun (acc : BitVec 16) ec => do
-    let cu ← isCustomAt up ec
-    if (!cu || dev.contains ec) && ec ≥ k * 16 && ec < (k + 1) * 16 then ok (acc ||| BitVec.ofNat 16 (2 ^ (ec % 16).toNat)) else ok acc) 0
+def blockMask (up : List Channel) (dev enabled : List Int) (k : Int) : BitVec 16 :=
+  enabled.foldl (fun (acc : BitVec 16) ec =>
+    if (!customAt up ec || dev.contains ec) && decide (ec ≥ k * 16) && decide (ec < (k + 1) * 16) then acc ||| BitVec.ofNat 16 (2 ^ (ec % 16).toNat) else acc) 0
 
 /-- the block loop over the sorted diff -/
-def planLoop (up : List Channel) (dev enabled : List Int) : List Int → Int → Outcome (List Plan)
-  | [], _ => ok []
+def planLoop (up : List Channel) (dev enabled : List Int) : List Int → Int → List Plan
+  | [], _ => []
   | c :: cs, cur =>
-    if Int.tdiv c 16 != cur then do
-      let k := Int.tdiv c 16
-      let m ← blockMask up dev enabled k
-      let r ← planLoop up dev enabled cs k
-      ok ({ cntl := BitVec.ofInt 8 k, mask := m } :: r)
+    if Int.tdiv c 16 != cur then
+      { cntl := BitVec.ofInt 8 (Int.tdiv c 16), mask := blockMask up dev enabled (Int.tdiv c 16) } :: planLoop up dev enabled cs (Int.tdiv c 16)
     else planLoop up dev enabled cs cur
 
 def insertKeep (x : Int) : List Int → List Int
@@ -272,11 +265,11 @@ def insertKeep (x : Int) : List Int → List Int
 def sortInts (l : List Int) : List Int := l.foldr insertKeep []
 
 /-- generic `GetLinkADRReqPayloadsForEnabledUplinkChannelIndices` -/
-def BandState.planGeneric (b : BandState) (dev : List Int) : Outcome (List Plan) := do
+def BandState.planGeneric (b : BandState) (dev : List Int) : List Plan :=
   let enabled := b.enabledIdx
   let diff := intSliceDiff dev enabled
-  let filtered ← filterDiff b.up dev diff
-  if diff.length == 0 || filtered.length == 0 then ok []
+  let filtered := filterDiff b.up dev diff
+  if diff.length == 0 || filtered.length == 0 then []
   else planLoop b.up dev enabled (sortInts diff) (-1)
 
 /-- one payload of `GetEnabledUplinkChannelIndicesForLinkADRReqPayloads`: the Go loop over the 16 mask bits returns an error
@@ -318,10 +311,10 @@ def planB (enabledSorted : List Int) : List Plan :=
       else loop cs cur
   { cntl := 7, mask := first } :: loop enabledSorted (-1)
 
-def BandState.planUS (b : BandState) (dev : List Int) : Outcome (List Plan) := do
-  let a ← b.planGeneric dev
+def BandState.planUS (b : BandState) (dev : List Int) : List Plan :=
+  let a := b.planGeneric dev
   let bb := planB (sortInts b.enabledIdx)
-  if a.length < bb.length then ok a else ok bb
+  if a.length < bb.length then a else bb
 
 /-- US915/AU915 apply: ChMaskCntl 6 / 7 switch all 125 kHz channels on / off and set 64..71 from the mask -/
 def applyUSLoop (n : Nat) : List Plan → List Bool → Outcome (List Bool)
@@ -337,7 +330,7 @@ def applyUSLoop (n : Nat) : List Plan → List Bool → Outcome (List Bool)
       let m' ← applyBlock n (p.cntl * 16#8).toNat p.mask m
       applyUSLoop n ps m'
 
-def BandState.plan (b : BandState) (dev : List Int) : Outcome (List Plan) :=
+def BandState.plan (b : BandState) (dev : List Int) : List Plan :=
   match b.cfg.family with
   | .us915 | .au915 => b.planUS dev
   | _ => b.planGeneric dev
